@@ -6,6 +6,7 @@ import (
 	stdjson "encoding/json"
 	"fmt"
 	"io"
+	"math"
 	"reflect"
 	"regexp"
 	"strings"
@@ -679,6 +680,226 @@ func runZeroCopyDecoders(c *core.Case) {
 	c.Distinct(core.Mix(core.HashBytes(data), uint64(m)), true)
 }
 
+// map keys: member names stored in map[string]any / map[string]T targets are copies, also when a name
+// occurs twice in one object and when the map already holds the key from an earlier decode.
+func runMapKeys(c *core.Case) {
+	c.Journal("map-keys")
+	r := c.Rng
+	keys := []string{r.ASCIIString(1, 12), r.ASCIIString(1, 12), "k", strings.Repeat("long", r.Range(1, 30))}
+	var sb strings.Builder
+	sb.WriteByte('{')
+	n := r.Range(2, 12)
+	for i := 0; i < n; i++ {
+		if i > 0 {
+			sb.WriteByte(',')
+		}
+		k := keys[r.Intn(len(keys))] // duplicates on purpose
+		kb, _ := stdjson.Marshal(k)
+		sb.Write(kb)
+		sb.WriteByte(':')
+		switch r.Intn(3) {
+		case 0:
+			fmt.Fprintf(&sb, "%d", r.Intn(1000))
+		case 1:
+			vb, _ := stdjson.Marshal(r.ASCIIString(0, 20))
+			sb.Write(vb)
+		default:
+			kb2, _ := stdjson.Marshal(keys[r.Intn(len(keys))])
+			fmt.Fprintf(&sb, `{%s:1,%s:2}`, kb2, kb2)
+		}
+	}
+	sb.WriteByte('}')
+	doc := []byte(sb.String())
+	var want map[string]any
+	if stdjson.Unmarshal(doc, &want) != nil {
+		return
+	}
+	how := c.Index % 4
+	got := map[string]any{}
+	if c.Index%8 >= 4 {
+		got = nil
+	}
+	backing, in := arena(doc)
+	var err error
+	switch how {
+	case 0:
+		err = json.Unmarshal(in, &got)
+	case 1:
+		_, err = json.Parse(in, &got, 0)
+	case 2: // the map is long-lived: decoded into twice
+		err = json.Unmarshal(in, &got)
+		if err == nil {
+			err = json.Unmarshal(in, &got)
+		}
+	default: // through a Decoder whose buffer is then reused for a long stream
+		stream := append(append([]byte(nil), doc...), ' ')
+		for len(stream) < 70000 {
+			stream = append(stream, `{"pad":"`+strings.Repeat("p", 900)+`"} `...)
+		}
+		dec := json.NewDecoder(bytes.NewReader(stream))
+		err = dec.Decode(&got)
+		for err == nil {
+			var skip struct{}
+			if e := dec.Decode(&skip); e != nil {
+				break
+			}
+		}
+	}
+	if err != nil {
+		c.Violation("map-keys", "decode-error", fmt.Sprintf("decoding %q failed: %v", doc, err), nil)
+		return
+	}
+	for i := range backing {
+		backing[i] = 'X' // the caller reuses its buffer
+	}
+	burst(r, 1)
+	if !reflect.DeepEqual(got, want) {
+		c.Violation(fmt.Sprintf("map-keys|how%d", how), "keys-changed-with-the-input", fmt.Sprintf("map decoded from %q no longer equals the reference after the input buffer was overwritten: %s, want %s", doc, show(got), show(want)), map[string]any{"doc": string(doc), "how": how})
+		return
+	}
+	for k := range want {
+		if _, ok := got[k]; !ok {
+			c.Violation(fmt.Sprintf("map-keys|how%d", how), "lookup-fails", fmt.Sprintf("key %q of the map decoded from %q cannot be looked up any more", k, doc), nil)
+			return
+		}
+	}
+	c.Count("map-keys.docs", 1)
+	c.Distinct(core.Mix(core.HashBytes(doc), uint64(how)), true)
+}
+
+// reused destinations: a destination filled by a zero-copy Parse points into that call's input;
+// a later plain Unmarshal into the same destination may replace what it holds, not write through
+// it into the earlier input.
+func runReusedDestination(c *core.Case) {
+	c.Journal("reused-destination")
+	r := c.Rng
+	type dstT struct {
+		Raw json.RawMessage
+		Num json.Number
+		S   string
+		B   []byte
+		L   []json.RawMessage
+	}
+	mk := func() []byte {
+		d := dstT{Raw: json.RawMessage(`{"k":"` + r.ASCIIString(0, 40) + `"}`), Num: json.Number(fmt.Sprint(r.Int64())), S: r.ASCIIString(0, 40), B: r.Bytes(r.Intn(30)), L: []json.RawMessage{json.RawMessage(`[1,2,3]`), json.RawMessage(`"` + r.ASCIIString(0, 20) + `"`)}}
+		b, _ := stdjson.Marshal(d)
+		return b
+	}
+	doc1, doc2 := mk(), mk()
+	backing1, in1 := arena(doc1)
+	snap1 := append([]byte(nil), backing1...)
+	var dst dstT
+	if _, err := json.Parse(in1, &dst, json.ZeroCopy); err != nil {
+		c.Violation("reused-destination", "decode-error", fmt.Sprintf("Parse(%q, ZeroCopy): %v", doc1, err), nil)
+		return
+	}
+	backing2, in2 := arena(doc2)
+	snap2 := append([]byte(nil), backing2...)
+	var err error
+	switch c.Index % 3 {
+	case 0:
+		err = json.Unmarshal(in2, &dst)
+	case 1:
+		_, err = json.Parse(in2, &dst, 0)
+	default:
+		err = json.NewDecoder(bytes.NewReader(in2)).Decode(&dst)
+	}
+	if err != nil {
+		c.Violation("reused-destination", "decode-error", fmt.Sprintf("second decode of %q: %v", doc2, err), nil)
+		return
+	}
+	if !bytes.Equal(backing1, snap1) {
+		i := 0
+		for backing1[i] == snap1[i] {
+			i++
+		}
+		c.Violation("reused-destination", "earlier-input-written", fmt.Sprintf("a plain decode into a destination that a ZeroCopy Parse had filled wrote into that earlier call's input at offset %d: %q", i, backing1[max(0, i-10):min(len(backing1), i+30)]), map[string]any{"doc1": string(doc1), "doc2": string(doc2)})
+		return
+	}
+	if !bytes.Equal(backing2, snap2) {
+		c.Violation("reused-destination", "input-written", "the input of the second decode was modified", nil)
+		return
+	}
+	var want dstT
+	stdjson.Unmarshal(doc2, &want)
+	for i := range backing2 {
+		backing2[i] = 'X'
+	}
+	if !reflect.DeepEqual(dst, want) {
+		c.Violation("reused-destination", "value-diff", fmt.Sprintf("after the second (copying) decode and the reuse of its input the destination holds %s, want %s", show(dst), show(want)), nil)
+		return
+	}
+	c.Count("reused-destination.docs", 1)
+	c.Distinct(core.Mix(core.HashBytes(doc1), core.HashBytes(doc2)), true)
+}
+
+// after failures: encodes that fail half-way (holding pooled buffers) followed by encodes that
+// use two buffers at once; outputs obtained earlier keep their contents.
+func runAfterFailures(c *core.Case) {
+	c.Journal("after-failures")
+	r := c.Rng
+	keep, _ := json.Marshal(map[string]any{"kept": r.ASCIIString(10, 200)})
+	keepSnap := append([]byte(nil), keep...)
+	fails := []func() error{
+		func() error { return json.NewEncoder(io.Discard).Encode(math.NaN()) },
+		func() error { return json.NewEncoder(io.Discard).Encode(map[string]any{"a": 1, "c": make(chan int)}) },
+		func() error { _, err := json.Marshal([]any{1, math.Inf(1)}); return err },
+		func() error {
+			_, err := json.Marshal(map[string]json.RawMessage{"a": json.RawMessage(`1`), "b": json.RawMessage(`{`)})
+			return err
+		},
+		func() error {
+			e := json.NewEncoder(io.Discard)
+			e.SetIndent(">", " ")
+			return e.Encode(struct{ F func() }{})
+		},
+	}
+	for k := r.Range(1, 3); k > 0; k-- {
+		i := r.Intn(len(fails))
+		if err := fails[i](); err == nil {
+			c.Violation("after-failures", "no-error", fmt.Sprintf("failing encode #%d returned nil", i), nil)
+			return
+		}
+	}
+	depth := r.Range(1, 4)
+	pad := r.ASCIIString(0, 300)
+	b, err := json.Marshal([]any{pad, selfMarshaler{depth}, "tail"})
+	wantB, _ := stdjson.Marshal([]any{pad, selfMarshaler{depth}, "tail"})
+	if err != nil || !bytes.Equal(b, wantB) {
+		c.Violation("after-failures|Marshal", "output-overwritten", fmt.Sprintf("after failed encodes, Marshal of a value whose MarshalJSON calls Marshal gives %q (err %v), want %q", tr(b), err, tr(wantB)), nil)
+		return
+	}
+	var buf bytes.Buffer
+	e := json.NewEncoder(&buf)
+	e.Encode(selfMarshaler{depth})
+	e.Encode(map[string]any{"z": selfMarshaler{1}, "a": pad})
+	var sbuf bytes.Buffer
+	se := stdjson.NewEncoder(&sbuf)
+	se.Encode(selfMarshaler{depth})
+	se.Encode(map[string]any{"z": selfMarshaler{1}, "a": pad})
+	if !bytes.Equal(buf.Bytes(), sbuf.Bytes()) {
+		c.Violation("after-failures|Encoder", "output-overwritten", fmt.Sprintf("after failed encodes, an Encoder over marshalers that call Marshal wrote %q, want %q", tr(buf.Bytes()), tr(sbuf.Bytes())), nil)
+		return
+	}
+	if !bytes.Equal(keep, keepSnap) || !bytes.Equal(b, wantB) {
+		c.Violation("after-failures", "earlier-output-changed", "a Marshal result obtained earlier changed", nil)
+		return
+	}
+	c.Count("after-failures.rounds", 1)
+	c.Distinct(uint64(c.Index), true)
+}
+
+// selfMarshaler's MarshalJSON calls json.Marshal: two encode buffers are in use at once.
+type selfMarshaler struct{ depth int }
+
+func (s selfMarshaler) MarshalJSON() ([]byte, error) {
+	var in any
+	if s.depth > 0 {
+		in = selfMarshaler{s.depth - 1}
+	}
+	return json.Marshal(map[string]any{"depth": s.depth, "in": in, "pad": strings.Repeat("q", 40*s.depth)})
+}
+
 // lent marshaler output: the slice MarshalJSON / MarshalText returns belongs to the program (a
 // cached encoding, part of a bigger buffer); the library may read it during the call, never
 // write to it or keep it.
@@ -892,7 +1113,7 @@ func runTokenizerOwnership(c *core.Case) {
 func init() {
 	core.Register(&core.Monitor{
 		Prop:    "C10",
-		Rule:    "decode-ownership: a document (a struct covering strings, a >64-byte field name, Number, RawMessage, []byte, five map kinds, interfaces, ',string'; or a generated type), optionally re-spelled with upper-case keys and \\u escapes or mutated, is placed inside a canary-filled backing array and parsed under a rotating subset of the 9 public ParseFlags: the whole backing array must be unchanged; every string/Number/RawMessage/[]byte/map-key leaf (len>=2) of the result is classified by address as inside or outside the input buffer and may be inside only under its own DontCopy flag; without zero-copy flags the input is then overwritten with 0xAA, a burst of Marshal/Encode/Unmarshal/Tokenizer/Decoder calls runs on 5 goroutines and the value must still equal a reference decode. marshal-stability: results of Marshal/Encoder are snapshotted, concurrently read while bursts run (race build) and re-compared; re-marshalling gives identical bytes. decoder-stability: 20-400 records (some 4-40 KB), or 200-3000 bare values decoded into top-level *RawMessage / *Number / *string / *any targets, through Decoder with chunked readers; every earlier record must keep its contents after all later Decode calls. key-fragments: struct types whose field names need HTML escaping are encoded eight times in a random order of EscapeHTML on/off, every output compared with encoding/json's for that mode. tokenizer-ownership: String()/Unquote results and AppendUnescape. Distinct by (document, flags). zero-copy-decoders: a Decoder with each non-empty subset of the three DontCopy options over a short stream read to io.EOF; afterwards other Decoders run on this and other goroutines and the decoded records must keep their contents. lent-marshaler-output: MarshalJSON / MarshalText return a slice of a bigger canary-filled buffer with spare capacity (top level, by pointer, in slices, maps and fields) through Marshal, Encoder.Encode twice and Append: the buffer is unchanged right after the call, after later calls on the same goroutine and after a burst on others.",
+		Rule:    "decode-ownership: a document (a struct covering strings, a >64-byte field name, Number, RawMessage, []byte, five map kinds, interfaces, ',string'; or a generated type), optionally re-spelled with upper-case keys and \\u escapes or mutated, is placed inside a canary-filled backing array and parsed under a rotating subset of the 9 public ParseFlags: the whole backing array must be unchanged; every string/Number/RawMessage/[]byte/map-key leaf (len>=2) of the result is classified by address as inside or outside the input buffer and may be inside only under its own DontCopy flag; without zero-copy flags the input is then overwritten with 0xAA, a burst of Marshal/Encode/Unmarshal/Tokenizer/Decoder calls runs on 5 goroutines and the value must still equal a reference decode. marshal-stability: results of Marshal/Encoder are snapshotted, concurrently read while bursts run (race build) and re-compared; re-marshalling gives identical bytes. decoder-stability: 20-400 records (some 4-40 KB), or 200-3000 bare values decoded into top-level *RawMessage / *Number / *string / *any targets, through Decoder with chunked readers; every earlier record must keep its contents after all later Decode calls. key-fragments: struct types whose field names need HTML escaping are encoded eight times in a random order of EscapeHTML on/off, every output compared with encoding/json's for that mode. tokenizer-ownership: String()/Unquote results and AppendUnescape. Distinct by (document, flags). zero-copy-decoders: a Decoder with each non-empty subset of the three DontCopy options over a short stream read to io.EOF; afterwards other Decoders run on this and other goroutines and the decoded records must keep their contents. lent-marshaler-output: MarshalJSON / MarshalText return a slice of a bigger canary-filled buffer with spare capacity (top level, by pointer, in slices, maps and fields) through Marshal, Encoder.Encode twice and Append: the buffer is unchanged right after the call, after later calls on the same goroutine and after a burst on others. map-keys: objects with duplicate member names into fresh, nil and long-lived map[string]any targets (Unmarshal, Parse, twice into the same map, a Decoder that goes on reading 70 KB): after the input is overwritten the map equals encoding/json's and every key can be looked up. reused-destination: a destination filled by a ZeroCopy Parse is decoded into again without flags: the earlier input is unchanged, the value is the second document's and survives the reuse of its input. after-failures: 1-3 encodes that fail half-way, then Marshal / Encoder over marshalers that call Marshal: bytes equal to encoding/json's, earlier outputs unchanged.",
 		Trusted: []string{"address-range classification via reflect/unsafe in the harness", "encoding/json for reference decodes", "Go race detector for library writes into handed-out memory (race build)"},
 		Subs: []core.Sub{
 			{Name: "decode-ownership", N: core.Const(6000, 300000), Run: runDecodeOwnership},
@@ -900,6 +1121,9 @@ func init() {
 			{Name: "decoder-stability", N: core.Const(500, 20000), Run: runDecoderStability},
 			{Name: "zero-copy-decoders", N: core.Const(350, 14000), Run: runZeroCopyDecoders},
 			{Name: "lent-marshaler-output", N: core.Const(192, 1920), Run: runLentOutput},
+			{Name: "map-keys", N: core.Const(800, 30000), Run: runMapKeys},
+			{Name: "reused-destination", N: core.Const(300, 9000), Run: runReusedDestination},
+			{Name: "after-failures", N: core.Const(200, 6000), Run: runAfterFailures, Modes: []string{"plain"}},
 			{Name: "key-fragments", N: core.Const(600, 20000), Run: runKeyFragments},
 			{Name: "tokenizer-ownership", N: core.Const(4000, 200000), Run: runTokenizerOwnership},
 		},
